@@ -15,11 +15,6 @@ SHORT = 'clock'
 
 ENV = '''
 use std::collections::VecDeque;
-#[derive(Debug, Clone, Copy, PartialEq, Eq, Structural)]
-pub struct StatusCode { pub bits: u32 }
-impl StatusCode {
-    pub const BadTimeout: StatusCode = StatusCode { bits: 0x800A_0000 };
-}
 // ---- chrono / std::time as far as these functions use them
 // chrono::DateTime<Utc>: a point in time, in milliseconds
 #[derive(Clone, Copy)]
@@ -204,6 +199,7 @@ def build(manifest):
     a = Asm()
     a.add('#![feature(allocator_api)]\nuse vstd::prelude::*;\nverus! {\nglobal size_of usize == 8;\n', 'prelude', 'env')
     a.add(norm_vis(types), 'types', 'env')
+    a.add(status_code_struct(manifest), 'status codes', 'env')      # every status code of the real file (D14)
     a.add(ENV, 'env', 'env')
     a.add('impl Subscription {')
     a.add(f['test_and_set_publishing_interval_elapsed'], 'Subscription::test_and_set_publishing_interval_elapsed', 'fn')
